@@ -128,6 +128,7 @@ def gen_case(rng):
     case["first"] = rng.randrange(n_threads)
     case["policy"] = tprog.gen_policy(rng, n_threads, 400 * sum(len(t) for t in threads))
     case["policy_seed"] = rng.getrandbits(48)
+    case["opcodes"] = tprog.gen_granularity(rng)
     try:
         for ops in threads:  # every program must be runnable alone
             alone = _family(case)
